@@ -41,6 +41,9 @@ def check(ck):
     r09_10(ck)
     r09_11(ck)
     r09_12(ck)
+    from . import helpers as H
+    ck.rule('R09.13', 'dict_to_paths, with which inserted and divided subtrees are reported, keeps its recursion skeleton')
+    H.dict_to_paths_shape(ck, 'R09.13')
 
 
 def _stmt(x):
